@@ -164,7 +164,13 @@ func (C11) Generate(rng *rand.Rand, tier string) []core.Case {
 			if rng.Intn(3) == 0 {
 				k = mutateKey(rng, k, c11Alphabet)
 			}
+			if q%50 == 7 {
+				k = nil // the empty key: nothing is lower, everything is higher
+			}
 			cmpT := []string{"eq", "floor", "ceil", "lower", "higher"}[rng.Intn(5)]
+			if q%50 == 7 {
+				cmpT = []string{"floor", "lower", "ceil", "higher"}[(q/50+rng.Intn(4))%4]
+			}
 			ops = append(ops, "kv.get "+cmpT+" "+core.Hex(k))
 			if q%10 == 0 {
 				k2 := all[rng.Intn(len(all))]
